@@ -480,6 +480,114 @@ func @Plain() int {
 	return n
 }`, Drives: []Drive{gen("int", "@Chain", ""), gen("int", "@Switch", ""), fn("int", "@Plain", "")}},
 
+	{Name: "ExplicitlyInstantiatedYield", Props: []string{"C01", "C02", "C11"}, Src: `
+// Yield with an explicit type argument (needed where the element type cannot be inferred) in every statement
+// position: body, for-init, for-post, switch-init, a case body, a nested block
+GEN(int) @Countdown(n int) {
+	for i := n; i > 0; YIELDT(int, i) {
+		i--
+	}
+	RETURN
+}
+GEN(int) @Pairs(n int) {
+	for i := 0; i < n; YIELDT(int, -i) {
+		i++
+		YIELD(i)
+	}
+	RETURN
+}
+GEN(float64) @Halves(n int) {
+	x := 1.0
+	for YIELDT(float64, 1); n > 0; YIELDT(float64, x) {
+		x /= 2
+		n--
+	}
+	switch YIELDT(float64, 0); n {
+	case 0:
+		{
+			YIELDT(float64, -1)
+		}
+	}
+	RETURN
+}`, Drives: []Drive{gen("int", "@Countdown", "3"), gen("int", "@Pairs", "3"), gen("float64", "@Halves", "3")}},
+
+	{Name: "RangeChanLazy", Props: []string{"C02", "C04", "C10"}, Src: `
+// a range over a channel receives one value per iteration, when the iteration starts: never ahead
+GEN(int) @Relay(n int) {
+	ch := make(chan int, n)
+	for i := 0; i < n; i++ { ch <- 10 * (i + 1) }
+	close(ch)
+	for v := range ch {
+		vm.E("received", v, "queued", len(ch))
+		YIELD(v)
+		vm.E("after", v, "queued", len(ch))
+	}
+	vm.E("closed")
+	RETURN
+}
+GEN(int) @Two(n int) {
+	ch := make(chan int, n)
+	for i := 0; i < n; i++ { ch <- i }
+	k := 0
+	for v := range ch {
+		YIELD(v*100 + len(ch))
+		k++
+		if k == 2 { break }
+	}
+	YIELD(len(ch))
+	RETURN
+}`, Drives: []Drive{gen("int", "@Relay", "3"), gen("int", "@Relay", "0"), gen("int", "@Two", "4")}},
+
+	{Name: "IteratorOfIterators", Props: []string{"C06", "C11"}, Src: `
+// the element type of a generator is itself the iterator type
+GEN(int) @Nums(a, n int) {
+	for i := 0; i < n; i++ { vm.E("gen", a, i); YIELD(a + i) }
+	RETURN
+}
+GEN(ITER(int)) @Chunks(n int) {
+	for c := 1; c <= n; c++ {
+		YIELD(GENCALL(int, @Nums, 10*c, c))
+	}
+	RETURN
+}
+func @Flat(n int) int {
+	t := 0
+	RANGEITER(chunk, :=, GENCALL(ITER(int), @Chunks, n)) {
+		first := true
+		RANGEITER(v, :=, chunk) {
+			if first { first = false; continue }
+			if v%10 == 2 { break }
+			t += v
+		}
+	}
+	held := map[string]ITER(ITER(int)){"k": GENCALL(ITER(int), @Chunks, 2)}
+	for held["k"].MoveNext() {
+		inner := held["k"].Current()
+		for inner.MoveNext() { t += 1000 * inner.Current() }
+	}
+	return t
+}`, Drives: []Drive{fn("int", "@Flat", "3")}},
+
+	{Name: "EtaNiladicClosures", Props: []string{"C07", "C13"}, Src: `
+// closures without parameters can still differ from their callee: in the result type, in variadicity
+type @Item struct{ v int }
+func @lookup(i int) *@Item { if i%2 == 0 { return nil }; return &@Item{i} }
+var @calls int
+func @next() *@Item { @calls++; return @lookup(@calls) }
+func @sum(xs ...int) int { t := 7; for _, x := range xs { t += x }; return t }
+func @repeat[T any](n int, f func() T) []T { var out []T; for i := 0; i < n; i++ { out = append(out, f()) }; return out }
+func @F() int {
+	@calls = 0
+	boxed := @repeat(4, func() any { return @next() }) // a nil *Item boxed in a non-nil interface
+	nils := 0
+	for _, b := range boxed { if b == nil { nils++ } }
+	variadic := func() int { return @sum() }
+	same := func() *@Item { return @next() }
+	r := nils*100 + variadic()
+	if same() != nil { r += 1000 }
+	return r
+}`, Drives: []Drive{fn("int", "@F", "")}},
+
 	{Name: "RangeBodyRedeclares", Props: []string{"C04", "C03"}, Src: `
 // the body of a range statement is its own block: it may redeclare the range variables, and closures made
 // before the redeclaration keep seeing the range variables
@@ -559,7 +667,7 @@ GEN(int) @G() {
 	RETURN
 }`, Drives: []Drive{gen("int", "@G", "")}},
 
-	{Name: "RangeChan", Props: []string{"C04"}, Src: `
+	{Name: "RangeChan", Props: []string{"C04", "C02"}, Src: `
 GEN(int) @G(n int) {
 	ch := make(chan int, n)
 	for i := 0; i < n; i++ { ch <- i * 3 }
